@@ -5,7 +5,7 @@ from types import SimpleNamespace
 
 from symex.api import Case
 from symex import refs
-from harness.svcommon import make_data, build_sv_impl, with_krylov_stub, h_ref_step
+from harness.svcommon import make_data, build_sv_impl, with_krylov_stub, h_ref_step, sv_stub_config
 
 PROPERTY = "C16"
 
@@ -45,7 +45,7 @@ def dm_steps(n, steps, n_ops, slm, with_init):
             dms = env.mod("emu_sv.density_matrix_state")
             init = dms.DensityMatrix(hermitian(env, "rho0", 2**n), gpu=False)
             init_before = init.data.clone()
-        cfg = SimpleNamespace(gpu=False, initial_state=init, krylov_tolerance=1e-8, observables=[])
+        cfg = sv_stub_config(initial_state=init)
 
         def run(rec):
             impl = build_sv_impl(env, data, cfg)
